@@ -43,6 +43,8 @@ def ids():
 def compute():
     from mc import impl
 
+    after_import_knobs()
+
     rows = []
     for text, ast in transcript_programs():
         b = impl.build(text)
@@ -60,20 +62,55 @@ def compute():
 
 
 def apply_environment_knobs():
-    """harness-side knobs of the child process: wall clock offset, recursion limit, garbage collector"""
+    """harness-side knobs of the child process: clocks, recursion limit, garbage collector, decimal context"""
+    import time
+
     off = float(os.environ.get("XPROC_CLOCK_OFFSET", "0") or 0)
     if off:
-        import time
-
         _t, _tn = time.time, time.time_ns
         time.time = lambda: _t() + off
         time.time_ns = lambda: _tn() + int(off * 1e9)
+    if os.environ.get("XPROC_FAST_CLOCK"):
+        # every reading of any clock is one hour later than the previous one (TTL caches, rate meters, rotating salts)
+        state = {"n": 0}
+        base = {k: getattr(time, k)() for k in ("time", "monotonic", "perf_counter")}
+
+        def mk(kind, ns=False):
+            def f():
+                state["n"] += 1
+                v = base[kind] + 3600.0 * state["n"]
+                return int(v * 1e9) if ns else v
+
+            return f
+
+        time.time, time.monotonic, time.perf_counter = mk("time"), mk("monotonic"), mk("perf_counter")
+        time.time_ns, time.monotonic_ns, time.perf_counter_ns = mk("time", True), mk("monotonic", True), mk("perf_counter", True)
     if os.environ.get("XPROC_RECURSION"):
         sys.setrecursionlimit(int(os.environ["XPROC_RECURSION"]))
     if os.environ.get("XPROC_NOGC"):
         import gc
 
         gc.disable()
+    if os.environ.get("XPROC_DECIMAL_PREC"):
+        import decimal
+
+        decimal.getcontext().prec = int(os.environ["XPROC_DECIMAL_PREC"])
+        decimal.getcontext().rounding = decimal.ROUND_DOWN
+        decimal.DefaultContext.prec = int(os.environ["XPROC_DECIMAL_PREC"])
+    if os.environ.get("XPROC_FLOAT_REPR"):
+        import locale
+
+        try:
+            locale.setlocale(locale.LC_ALL, "")
+        except locale.Error:
+            pass
+
+
+def after_import_knobs():
+    if os.environ.get("XPROC_WARN_ERROR"):
+        import warnings
+
+        warnings.simplefilter("error")
 
 
 if __name__ == "__main__":
